@@ -493,6 +493,32 @@ CHECKS["C02"] = dict(
     ),
 )
 
+CHECKS["C20"] = dict(
+    harnesses={"dsp": dict(src="c20_cores.cpp", cfg="fast", kind="rc")},
+    quick=[dict(name="dsp", harness="dsp", workers=16, args=["--n", "400"])],
+    thorough=[dict(name="dsp", harness="dsp", workers=16, args=["--n", "15000"], timeout=14400)],
+    rule="rapidcheck draws a configuration: core (all 8 audio cores) x chip family setting {bank default, OPN2, OPNA} x sample rate (the 11 named rates incl. native 53267/55466, or uniform "
+         "8000..192000) x run-at-PCM-rate on/off x 1-3 chips x key 24..108 with f0 < 0.4*rate (48.. for the slow Nuked cores) x audio call size x scenario {single held note; chord of "
+         "3-6 notes >= 3 semitones apart; dense burst of 200-600 note/CC7/CC11/bend events issued between two audio calls while the test note is held} x release {note-off, panic, reset}. "
+         "A pure-tone instrument (algorithm 7, one carrier, instant attack, fastest release) is installed in every program. Oracle on the S16 PCM: idle output constant within 1 % FS; "
+         "onset within 10 ms (single/chord); RMS of every 50 ms window > 1 % FS while held; zero-crossing frequency within 0.5 % (1 % below 22.05 kHz) of 440*2^((key-69)/12) when the core "
+         "runs at its native rate (chords: Goertzel amplitude at every nominal frequency); >= 200 ms after the release, panic or reset every sample of both channels within 1 % FS of the "
+         "idle level for 300 ms, in both PCM-rate modes. Non-trivial = the tone was detected (peak > 2 % FS); distinct by FNV-64 of the configuration.",
+    assumptions=[
+        "keys whose nominal frequency is at or above 0.4 x the output rate are outside the property (no fundamental can be rendered)",
+        "the note is played at velocity 127 with default channel volume; 'audible' is judged at 1 % of full scale",
+        "after a burst, 400 ms are allowed before the held note is measured and 500 ms before silence is required (queued cores apply one register write per native sample)",
+    ],
+    min_nontrivial={"quick": 3000, "thorough": 100000},
+    manifest=dict(
+        engine="rapidcheck",
+        technique="property-based testing over the emulator configuration space with a signal-analysis oracle (zero-crossing pitch, onset, windowed RMS, Goertzel, residual level) on rendered PCM",
+        level_text="Sampled configurations of every core/family/rate/mode with single notes, chords and dense event bursts; pitch, onset, audibility and silence after release/panic/reset "
+                   "are measured on the audio the public API returns.",
+        level_note="Sampled, not exhaustive; unsanitized -O2 build (numeric check); tolerances are the property's own.",
+    ),
+)
+
 _C01_ENV = {"ASAN_OPTIONS": "max_allocation_size_mb=256"}
 CHECKS["C01"] = dict(
     harnesses={"pbt": dict(src="c01_music.cpp", cfg="asan", kind="rc", env=_C01_ENV),
